@@ -233,6 +233,7 @@ var (
 		"compression methods must not be longer than 255 entries",
 	)
 	ErrPublicKeyTooLong         = stderrors.New("public key must not be longer than 255 bytes")
+	ErrVectorTooLong            = stderrors.New("field does not fit the length prefix of its encoding")
 	ErrInvalidEllipticCurveType = stderrors.New("invalid or unknown elliptic curve type")
 	ErrInvalidNamedCurve        = stderrors.New("invalid named curve")
 	ErrCipherSuiteUnset         = stderrors.New(
